@@ -38,6 +38,15 @@ pub mod vq {
         ensures r@ == s@
     { s.try_into().unwrap() }
 
+    /// Target of rewrite R11 (verified, not assumed): Result::map with the first projection.
+    pub fn vq_map_first<A, B, E>(r: Result<(A, B), E>) -> (o: Result<A, E>)
+        ensures
+            r is Ok ==> o is Ok && o->Ok_0 == r->Ok_0.0,
+            r is Err ==> o is Err && o->Err_0 == r->Err_0,
+    {
+        match r { Ok(p) => Ok(p.0), Err(e) => Err(e) }
+    }
+
     pub assume_specification<T, E, F> [core::result::Result::<T, E>::or] (a: Result<T, E>, b: Result<T, F>) -> (r: Result<T, F>)
         where E: core::marker::Destruct, F: core::marker::Destruct, T: core::marker::Destruct,
         ensures a is Ok ==> r == Ok::<T,F>(a->Ok_0), a is Err ==> r == b;
